@@ -289,13 +289,16 @@ FIELD_SETS = [
 ]
 
 
-def acl_edit(permit: bool, fs: int, pos: int, pre0: bool, pre1: bool, pre2: bool, via_request: bool, remove: bool, max_rules: int = 25):
+def acl_edit(permit: bool, fs: int, pos: int, pre0: bool, pre1: bool, pre2: bool, via_request: bool, remove: bool, like: int, max_rules: int = 25):
     """L3b: add_rule/remove_rule change exactly the addressed slot or are refused (ValueError via the Python API,
     a 'failure' response via the request API) for every position -2..max+1."""
     import primaite.simulator.network.hardware.nodes.network.router as R
 
-    assume(all_of(rng(fs, 0, len(FIELD_SETS) - 1), rng(pos, -2, max_rules + 1)))
+    assume(all_of(rng(fs, 0, len(FIELD_SETS) - 1), rng(pos, -2, max_rules + 1), rng(like, 0, 2)))
     fields = pick(FIELD_SETS, fs)
+    # what already sits in the pre-populated slots: 0 an unrelated rule, 1 the SAME rule as the one being added except
+    # for its wildcard masks (a range widened / narrowed / added / removed), 2 exactly the rule being added
+    lk = pick([0, 1, 2], like)
     with concrete():
         acl = _mk_acl(max_rules, False)
         nreal = len(acl._acl)
@@ -303,7 +306,16 @@ def acl_edit(permit: bool, fs: int, pos: int, pre0: bool, pre1: bool, pre2: bool
     for w, pre in zip(watch, [pre0, pre1, pre2]):
         if pre:
             with concrete():
-                acl._acl[w] = R.ACLRule(action=R.ACLAction.DENY, src_port=22)
+                if lk == 0:
+                    acl._acl[w] = R.ACLRule(action=R.ACLAction.DENY, src_port=22)
+                else:
+                    kw = {k: v for k, v in fields.items() if v is not None}
+                    if lk == 1:
+                        for side in ("src", "dst"):
+                            if fields[side + "_ip_address"] is not None:
+                                kw[side + "_wildcard_mask"] = "0.0.255.255"  # differs from every mask in FIELD_SETS
+                    acl._acl[w] = R.ACLRule(action=R.ACLAction.PERMIT if permit else R.ACLAction.DENY, **kw)
+                    acl._acl[w].match_count = 3
     with concrete():
         before = list(acl._acl)
     pos = concretize(pos)  # pydantic validate_call boundary
@@ -356,7 +368,8 @@ def acl_edit(permit: bool, fs: int, pos: int, pre0: bool, pre1: bool, pre2: bool
                     check(after[i] is None, "remove_rule left the rule in place")
                 else:
                     r = after[i]
-                    check(r is not None and r is not before[i], "add_rule did not place a new rule at the position")
+                    same_as_before = lk == 2 and before[i] is not None  # re-adding exactly the installed rule: keeping the object is fine
+                    check(r is not None and (same_as_before or r is not before[i]), "add_rule did not place a new rule at the position")
                     check((r.action == R.ACLAction.PERMIT) == permit, "rule action differs from the one requested")
                     check(r.protocol == fields["protocol"], "rule protocol differs")
                     check(r.src_port == fields["src_port"] and r.dst_port == fields["dst_port"], "rule ports differ (falsy port lost?)")
@@ -370,7 +383,7 @@ def acl_edit(permit: bool, fs: int, pos: int, pre0: bool, pre1: bool, pre2: bool
                         and (None if r.dst_wildcard_mask is None else str(r.dst_wildcard_mask)) == fields["dst_wildcard_mask"],
                         "rule wildcard masks differ",
                     )
-                    check(r.match_count == 0, "new rule starts with a non-zero hit counter")
+                    check(same_as_before or r.match_count == 0, "new rule starts with a non-zero hit counter")
             else:
                 check(after[i] is before[i], lambda: f"slot {i} changed although position {pos} was addressed")
     else:
@@ -419,7 +432,7 @@ HARNESSES = {
         "quick": [{"fixed": {"max_rules": 25, "via_request": v}, "timeout": 240} for v in (False, True)],
         "thorough": [{"fixed": {"max_rules": mr, "via_request": v, "remove": rm}, "timeout": 900} for mr in (25, 4) for v in (False, True) for rm in (False, True)],
         "cover": ["valid_pos", "invalid_pos"],
-        "bounds": "positions -2..max_acl_rules+1 (all), 4 field combinations incl. port 0 and wildcard masks, Python API and request API",
+        "bounds": "positions -2..max_acl_rules+1 (all), 4 field combinations incl. port 0 and wildcard masks, Python API and request API; occupied slots hold an unrelated rule, the same rule with other wildcard masks, or exactly the rule being added",
     },
 }
 
